@@ -1,7 +1,175 @@
-import Nv.Model.C17
-/-! C17 — property theorems (milestone A placeholder; the full list follows). -/
+import Nv.Proofs.C17
+import Nv.Proofs.C17Shard
+import Nv.Proofs.C04Wide
+/-!
+C17 — property theorems for shard routing (`remap`) and the sharded containers.
+Model: `Nv.Model.C17`. Shard counts `1 ≤ n ≤ 2^64 − 1` for the partition (Go can only allocate
+`n < 2^63` shards, which is what the `int` conversions additionally need — see `Nv.Tie.C17`);
+hash values are all of `[0, 2^64)`. `c` ranges over `Proved` (last boundary forced to 2^64−1,
+predicate `>=`).
+-/
 namespace Nv.C17
 
-theorem search_example : searchIndex ⟨true, .ge⟩ 3 (2 ^ 64 - 1) = 2 ∧ searchIndex ⟨true, .ge⟩ 3 0 = 0 := by decide
+/-! ### the partition -/
+
+/-- boundaries are strictly ascending … -/
+theorem nps_strictly_ascending (c : Cfg) (hc : Proved c) (n : Nat) (h1 : 1 ≤ n) (h2 : n ≤ M64)
+    (i j : Nat) (hij : i < j) (hj : j < n) : nps c n i < nps c n j := by
+  rw [proved_eq hc]; exact nps_strict n h1 h2 i j hij hj
+
+/-- … and the last one is 2^64 − 1, so the intervals `(nps (i−1), nps i]` (first: `[0, nps 0]`) cover every hash -/
+theorem nps_covers (c : Cfg) (hc : Proved c) (n : Nat) (h1 : 1 ≤ n) : nps c n (n - 1) = 2 ^ 64 - 1 := by
+  rw [proved_eq hc]; exact nps_last n h1
+
+/-- `SearchIndex` is in range, and returns the interval the hash lies in -/
+theorem partition_total (c : Cfg) (hc : Proved c) (n x : Nat) (h1 : 1 ≤ n) (h2 : n ≤ M64) (hx : x < 2 ^ 64) :
+    searchIndex c n x < n ∧ x ≤ nps c n (searchIndex c n x) ∧
+      (0 < searchIndex c n x → nps c n (searchIndex c n x - 1) < x) := by
+  rw [proved_eq hc]
+  have hx' : x ≤ M64 := by have : M64 = 2 ^ 64 - 1 := rfl; omega
+  rw [searchIndex_eq n x h1 h2 hx']
+  have := search_least n x h1 h2 hx'
+  exact ⟨this.1, this.2.1, fun h => this.2.2 _ (by omega)⟩
+
+/-- every hash lies in exactly one interval: any index whose interval contains `x` is the one returned -/
+theorem partition_unique (c : Cfg) (hc : Proved c) (n x : Nat) (h1 : 1 ≤ n) (h2 : n ≤ M64) (hx : x < 2 ^ 64)
+    (i : Nat) (hi : i < n) (hhi : x ≤ nps c n i) (hlo : 0 < i → nps c n (i - 1) < x) :
+    searchIndex c n x = i := by
+  have hp := partition_total c hc n x h1 h2 hx
+  rw [proved_eq hc] at hp hhi hlo ⊢
+  obtain ⟨hr, hrhi, hrlo⟩ := hp
+  rcases Nat.lt_trichotomy (searchIndex cfgOk n x) i with h | h | h
+  · -- r < i: nps r ≤ nps (i-1) < x ≤ nps r
+    have := nps_mono n h1 h2 (searchIndex cfgOk n x) (i - 1) (by omega) (by omega)
+    have := hlo (by omega)
+    omega
+  · exact h
+  · have := nps_mono n h1 h2 i (searchIndex cfgOk n x - 1) (by omega) (by omega)
+    have := hrlo (by omega)
+    omega
+
+/-- the partition is monotone in the hash -/
+theorem search_monotone (c : Cfg) (hc : Proved c) (n x y : Nat) (h1 : 1 ≤ n) (h2 : n ≤ M64) (hxy : x ≤ y)
+    (hy : y < 2 ^ 64) : searchIndex c n x ≤ searchIndex c n y := by
+  have hpx := partition_total c hc n x h1 h2 (by omega)
+  have hpy := partition_total c hc n y h1 h2 hy
+  rw [proved_eq hc] at hpx hpy ⊢
+  rcases Nat.lt_or_ge (searchIndex cfgOk n y) (searchIndex cfgOk n x) with h | h
+  · -- nps (r_x − 1) < x ≤ y ≤ nps r_y ≤ nps (r_x − 1)
+    have := nps_mono n h1 h2 (searchIndex cfgOk n y) (searchIndex cfgOk n x - 1) (by omega) (by omega)
+    have := hpx.2.2 (by omega)
+    omega
+  · exact h
+
+/-- every shard is hit: boundary `i` itself maps to shard `i` (no empty interval) -/
+theorem search_boundary (c : Cfg) (hc : Proved c) (n i : Nat) (h1 : 1 ≤ n) (h2 : n ≤ M64) (hi : i < n) :
+    searchIndex c n (nps c n i) = i := by
+  have hle : nps c n i ≤ M64 := by rw [proved_eq hc]; exact nps_le_max n i hi
+  refine partition_unique c hc n _ h1 h2 (by have : M64 = 2 ^ 64 - 1 := rfl; omega) i hi (Nat.le_refl _) ?_
+  intro h0
+  exact nps_strictly_ascending c hc n h1 h2 (i - 1) i (by omega) hi
+
+example : Proved ⟨true, .ge⟩ := by decide
+example : searchIndex ⟨true, .ge⟩ 73 (2 ^ 63) = 36 ∧ searchIndex ⟨true, .ge⟩ 73 0 = 0 ∧
+    searchIndex ⟨true, .ge⟩ 73 (2 ^ 64 - 1) = 72 := by decide
+
+/-! ### the index functions -/
+
+theorem search_in_range (c : Cfg) (hc : Proved c) (n x : Nat) (h1 : 1 ≤ n) (h2 : n ≤ M64) (hx : x < 2 ^ 64) :
+    searchIndex c n x < n := (partition_total c hc n x h1 h2 hx).1
+
+/-- `SimpleIndex` of an integer / HitGroup key is in range whatever the conversion to `uint64` is -/
+theorem simple_in_range (arm : KType → Nat → Option (BitVec 64)) (c : Cfg) (hc : Proved c) (n : Nat)
+    (h1 : 1 ≤ n) (h2 : n ≤ M64) (k : Key) (hh : k.hash < 2 ^ 64) :
+    ∀ i, simpleIndex arm c n k = .idx i → i < n := by
+  intro i h
+  simp only [simpleIndex] at h
+  split at h
+  · cases h; exact Nat.mod_lt _ (by omega)
+  · simp only [xhashIndex] at h
+    split at h
+    · cases h; exact search_in_range c hc n _ h1 h2 hh
+    · cases h
+
+theorem xhash_in_range (c : Cfg) (hc : Proved c) (n : Nat) (h1 : 1 ≤ n) (h2 : n ≤ M64) (k : Key)
+    (hh : k.hash < 2 ^ 64) : ∀ i, xhashIndex c n k = .idx i → i < n := by
+  intro i h
+  simp only [xhashIndex] at h
+  split at h
+  · cases h; exact search_in_range c hc n _ h1 h2 hh
+  · cases h
+
+/-- every supported key gets an index (no panic): integer and HitGroup keys under `SimpleIndex`, every key
+type of `ToBytes` under both routes -/
+theorem route_total (arm : KType → Nat → Option (BitVec 64)) (c : Cfg) (n : Nat) (k : Key)
+    (hs : k.hashable = true ∨ (arm k.ty k.bits).isSome = true) : ∃ i, simpleIndex arm c n k = .idx i := by
+  simp only [simpleIndex]
+  cases ha : arm k.ty k.bits with
+  | some it => exact ⟨_, rfl⟩
+  | none =>
+    rcases hs with hs | hs
+    · exact ⟨searchIndex c n k.hash, by simp [xhashIndex, hs]⟩
+    · simp [ha] at hs
+
+/-- the index is a function of the key's type, value and hash only (and of `n`): no hidden state -/
+theorem route_deterministic (arm : KType → Nat → Option (BitVec 64)) (c : Cfg) (n : Nat) (k k' : Key)
+    (hty : k.ty = k'.ty) (hb : k.bits = k'.bits) (hh : k.hash = k'.hash) :
+    simpleIndex arm c n k = simpleIndex arm c n k' ∧ xhashIndex c n k = xhashIndex c n k' := by
+  simp [simpleIndex, xhashIndex, Key.hashable, hty, hb, hh]
+
+/-- a HitGroup implementer has no arm in `ToBytes`: under xxhash routing the code panics on it (modelled as coded) -/
+theorem witness_hitgroup_unsupported_under_xhash (c : Cfg) (n h v : Nat) :
+    xhashIndex c n ⟨.hit, v, "", h⟩ = .panic := rfl
+
+/-! ### sharded containers -/
+
+/-- Generic: a per-key-independent container (`Keyed`: the answer and the new slot of `k` depend only on
+`k`'s slot; other slots are untouched) behind ANY routing function answers every request as the single
+container does. -/
+theorem sharded_equiv {S K R A V} (C : Keyed S K R A V) (idx : K → Nat) (s0 : S) (reqs : List (K × R)) :
+    outs (shardedStep C idx) (fun _ => s0) reqs = outs (singleStep C) s0 reqs :=
+  (sharded_sim C idx reqs (fun _ => s0) s0 (fun _ => rfl)).1
+
+/-- instance: the sharded map (`cache.WideMap`) equals the single map (`cache.Map`) on every Set/Get/Exist/Delete
+sequence, for every routing function — in particular modulo and xxhash routing with any shard count -/
+theorem wmap_equals_map (idx : Key → Nat) (reqs : List (Key × MReq)) :
+    outs (shardedStep mapKeyed idx) (fun _ => []) reqs = outs (singleStep mapKeyed) [] reqs :=
+  sharded_equiv mapKeyed idx [] reqs
+
+/-- with an in-range routing function only the shards `< n` are ever touched (the slice of `n` shards suffices) -/
+theorem sharded_touches_only_range {S K R A V} (C : Keyed S K R A V) (idx : K → Nat) (n : Nat)
+    (hidx : ∀ k, idx k < n) (sh : Nat → S) (req : K × R) (i : Nat) (hi : n ≤ i) :
+    (shardedStep C idx sh req).1 i = sh i := by
+  have : i ≠ idx req.1 := by have := hidx req.1; omega
+  simp [shardedStep, this]
+
+/-- instance LRU (`WideLRUCache`, both packages): capacity is applied per shard, so the sharded cache is
+the product of per-shard caches, each seeing the sub-script routed to it (`Nv.C04.wide_run_per_shard`);
+with the ideal-LRU refinement of C04 each shard answers as an ideal LRU of capacity `capacity/n + 1`. -/
+theorem wlru_is_product_of_shards (c : Nv.C04.Cfg) (kd : Nv.C04.Kind) (idx : Nat → Nat) (n : Nat)
+    (hidx : ∀ k, idx k < n) (cap : Int) (ops : List Nv.C04.Op) (hkeyed : ∀ o ∈ ops, o.key?.isSome = true) :
+    ∃ w os, Nv.C04.wideRun c kd idx (Nv.C04.Wide.new cap n) ops = some (w, os) ∧
+      ∀ i, i < n →
+        w.shards[i]? = some (final (Nv.C04.step c kd) (Nv.C04.Lru.new (Nv.C04.shardCap cap n)) (Nv.C04.shardOps idx i ops)) ∧
+        ((ops.zip os).filter (fun p => Nv.C04.routed idx i p.1)).map (·.2) =
+          outs (Nv.C04.step c kd) (Nv.C04.Lru.new (Nv.C04.shardCap cap n)) (Nv.C04.shardOps idx i ops) := by
+  obtain ⟨w, os, h1, -, h3⟩ := Nv.C04.wide_run_per_shard c kd idx n hidx ops hkeyed (Nv.C04.Wide.new cap n)
+    (by simp [Nv.C04.Wide.new])
+  exact ⟨w, os, h1, fun i hi => h3 i _ (by simp [Nv.C04.Wide.new, hi])⟩
+
+example : outs (shardedStep mapKeyed (fun k => k.bits % 3)) (fun _ => [])
+    [(⟨.i8, 255, "", 0⟩, .set 1), (⟨.i16, 65535, "", 0⟩, .set 2), (⟨.i8, 255, "", 0⟩, .get), (⟨.u8, 255, "", 0⟩, .exist)] =
+    [.unit, .unit, .val (some 1), .bool false] := by decide
+
+/-! ### what the unproved configurations do -/
+
+/-- without the last-boundary fix-up, 7 shards: hash 2^64−1 lies above `y·7 = 2^64−2`, the search returns 7,
+the clamp sends it to shard 0 — not monotone, and not the interval the hash lies in -/
+theorem witness_no_fixup :
+    searchIndex ⟨false, .ge⟩ 7 (2 ^ 64 - 1) = 0 ∧ searchIndex ⟨false, .ge⟩ 7 (2 ^ 64 - 2) = 6 := by decide
+
+/-- predicate `>` instead of `>=`: a hash equal to a boundary goes to the next shard, 2^64−1 to shard 0 -/
+theorem witness_gt_predicate :
+    searchIndex ⟨true, .gt⟩ 2 (2 ^ 64 - 1) = 0 ∧ searchIndex ⟨true, .gt⟩ 2 (2 ^ 64 - 2) = 1 := by decide
 
 end Nv.C17
